@@ -622,7 +622,15 @@ def worker(job):
         out['stats'] = core.STATS.as_dict()
         out['wall'] = time.time() - t0
         return out
+    # Go, Rust and Java write one file per packet, named after the packet: when two packets of the program (inline objects
+    # included) map to the same file name, which one survives depends on Go's map iteration order (C13's subject), so the
+    # emitted code - and everything said about it - would change from run to run.  Those cells carry no claim.
+    names = [re.sub(r'[^a-z0-9]', '', q.name.lower()) for q in all_packets(spec)]
+    collide = len(set(names)) != len(names)
     for lang in LANGS:
+        if collide and lang in ('go', 'rust', 'java'):
+            out['inconclusive'].append((lang, 'two packets share one output file name: the emitted files depend on map iteration order (reported by C13)'))
+            continue
         try:
             fe = make_fe(lang, spec, e, low)
         except Exception as ex:
@@ -1147,6 +1155,46 @@ def native_replay(lang, spec, emit, rec):
     return out
 
 
+def faithfulness(lang, spec, emit, low, rec):
+    """Is the front-end faithful to the real emitted code on the counterexample's input?  The reference bytes of the
+    counterexample message are decoded and re-encoded (a) by the front-end interpreting the lowered code and (b) by the emitted
+    code compiled natively against the reference runtime; both must give the same bytes / rest / failure.  Works for all five
+    languages and does not involve the reference semantics, so it can only rule out a modelling error of ours: agree=False
+    means the finding was produced by our model and is not reported."""
+    cex = rec.get('cex')
+    if not isinstance(cex, dict) or 'key' in cex or lang not in NATIVE_RUN:
+        return None
+    pk = [q for q in all_packets(spec) if q.name == rec['packet']]
+    if not pk:
+        return None
+    pk = pk[0]
+    try:
+        cmsg = cex_to_msg(spec, pk, cex)
+        data = eval_bytes(ref_enc(RefCtx(spec, cks_registered=False), pk, cmsg), _empty_model())
+        fe = make_fe(lang, spec, emit, low)
+        if fe.rejects:
+            return None
+
+        def rt(c):
+            o, ridx = fe.decode(c, pk, [z3.BitVecVal(b, 8) for b in data], False)
+            return fe.reencode(c, o, False), ridx
+        r = list(PathCtl([]).explore(rt))
+        if len(r) != 1 or isinstance(r[0][0], Outcome):
+            fe_res = {'error': str(r[0][0]) if r else 'no path'}
+        else:
+            fe_res = {'hex': eval_bytes(r[0][0][0], _empty_model()).hex(), 'rest': len(data) - r[0][0][1]}
+    except (Unsupported, MissingMember, Exception) as e:
+        return {'skipped': 'front-end: %s' % str(e)[:120]}
+    nat = NATIVE_RUN[lang](spec, emit, {'op': 'roundtrip', 'class': pk.name, 'data': data.hex()})
+    if not nat or 'skipped' in nat or 'driver_error' in nat or 'build_error' in nat:
+        return {'skipped': str((nat or {}).get('skipped') or (nat or {}).get('driver_error') or (nat or {}).get('build_error'))[:160]}
+    if 'error' in nat or 'error' in fe_res:
+        agree = ('error' in nat) == ('error' in fe_res)
+    else:
+        agree = nat.get('hex') == fe_res.get('hex') and nat.get('rest') == fe_res.get('rest')
+    return {'agree': agree, 'input_hex': data.hex()[:200], 'front_end': str(fe_res)[:200], 'native': str({k: nat[k] for k in ('hex', 'rest', 'error') if k in nat})[:200]}
+
+
 def _empty_model():
     s = z3.Solver()
     s.check()
@@ -1298,6 +1346,20 @@ def main(prop, tier, update_known=False):
             s = '%s|protoc|%s|-|compile|rejected:%s' % (prop, pn, pipea.norm_detail(first, 80))
             bysig.setdefault(s, []).append({'property': prop, 'lang': 'protoc', 'program': pn, 'packet': '-', 'shape': None, 'signature': s,
                                             'detail': 'fin-protoc rejects a well-formed program of the family: ' + first[:160], 'cex': None, 'sig': s})
+    if prop != 'C15':
+        # the codec on disk must be the codec of the DSL also when the output directories already held files (build.recompile_probe);
+        # one finding per target, whatever the number of programs
+        stale = collections.OrderedDict()
+        for pr in sel:
+            if len(set(re.sub(r'[^a-z0-9]', '', q.name.lower()) for q in all_packets(pr))) != len(all_packets(pr)):
+                continue
+            for lang, files in sorted((emits[pr.name].get('stale') or {}).items()):
+                stale.setdefault(lang, []).append((pr.name, files))
+        for lang, lst in stale.items():
+            s = '%s|protoc|*|-|recompile|stale:%s' % (prop, lang)
+            bysig.setdefault(s, []).append({'property': prop, 'lang': 'protoc', 'program': lst[0][0], 'packet': '-', 'shape': None, 'signature': s, 'sig': s, 'cex': None,
+                                            'detail': 'compiling into directories that hold older files of the same names and sizes does not leave the generated code there (%d programs, e.g. %s: %s)' % (
+                                                len(lst), lst[0][0], lst[0][1][:3])})
     if prop in ('C04', 'C05', 'C06'):
         # the programs of these families are built around the property's construct: when a target compiler rejects the code emitted
         # for one of them, or the emitted type lacks the member, there is no encoder/decoder for which the property could hold
@@ -1323,6 +1385,7 @@ def main(prop, tier, update_known=False):
     nviol = 0
     unconfirmed = []
     byprog = {p.name: p for p in progs}
+    faith_budget = collections.Counter()
     for s, fs in violations:
         f = fs[0]
         os.makedirs(rdir, exist_ok=True)
@@ -1338,7 +1401,17 @@ def main(prop, tier, update_known=False):
                 if nat.get('confirmed') is False:
                     unconfirmed.append(s)
                     rec['unconfirmed'] = True
-        rec['confirmation'] = 'counterexample re-evaluated concretely by the front-end' + ('; natively replayed (%s runtime)' % f.get('lang') if rec.get('native_replay') else '')
+        if (not rec.get('unconfirmed') and f.get('lang') in NATIVE_RUN and prop in ('C01', 'C02', 'C04', 'C06') and f['program'] in byprog
+                and ('registered:' not in s or 'unregistered:' in s) and faith_budget[f['lang']] < 3):
+            faith_budget[f['lang']] += 1
+            fr = faithfulness(f['lang'], byprog[f['program']], emits[f['program']], low, f)
+            if fr is not None:
+                rec['frontend_faithfulness'] = fr
+                if fr.get('agree') is False:
+                    unconfirmed.append(s)
+                    rec['unconfirmed'] = True
+        rec['confirmation'] = 'counterexample re-evaluated concretely by the front-end' + ('; natively replayed (%s runtime)' % f.get('lang') if rec.get('native_replay') else '') + (
+            '; front-end and native execution agree on this input' if (rec.get('frontend_faithfulness') or {}).get('agree') else '')
         if rec.get('unconfirmed'):
             # the real emitted module produces the reference bytes for this message: encoder/stub defect of ours, never an alarm
             print('UNCONFIRMED (not reported): %s' % s)
